@@ -3,6 +3,7 @@
    (prefix, namespace, name) names a prefix bound to that namespace now and
    concatenates back to the IRI. *)
 From RV Require Import Namespace.Model Namespace.Dict Namespace.StoreInv.
+From Coq Require Import DecimalN.
 
 Definition exact (f : str -> option (str * str)) (u : str) : Prop :=
   forall ns ln, f u = Some (ns, ln) -> ns ++ ln = u.
@@ -13,17 +14,88 @@ Definition qg (s : mst) (u : str) (X : Prop) (q : qn) : Prop :=
 
 (* ---------------------------------------------------------------- *)
 (* small facts *)
-Lemma has_space_dec_fuel : forall f n acc, has_space acc = false -> has_space (dec_fuel f n acc) = false.
-Proof.
-  induction f as [|f IH]; intros n acc H; simpl; auto.
-  assert (E : has_space ((48 + n mod 10)%N :: acc) = false).
-  { unfold has_space in *. cbn [existsb]. rewrite H, orb_false_r. apply N.eqb_neq. generalize (n mod 10)%N. intros; lia. }
-  destruct (N.ltb n 10); auto.
-Qed.
+Lemma has_space_uint d : has_space (uint_str d) = false.
+Proof. induction d; simpl; auto. Qed.
 
 Lemma has_space_ns num : has_space (s_ns ++ dec num) = false.
+Proof. unfold has_space. rewrite existsb_app. simpl. apply has_space_uint. Qed.
+
+(* "%s" % num is injective *)
+Lemma uint_str_inj : forall d1 d2, uint_str d1 = uint_str d2 -> d1 = d2.
 Proof.
-  unfold has_space. rewrite existsb_app. simpl. apply has_space_dec_fuel. reflexivity.
+  induction d1; destruct d2; cbn [uint_str]; intros H; try discriminate; try reflexivity;
+    inversion H; f_equal; auto.
+Qed.
+
+Lemma dec_inj a b : dec a = dec b -> a = b.
+Proof.
+  unfold dec. intros H. apply uint_str_inj in H.
+  rewrite <- (DecimalN.Unsigned.of_to a), <- (DecimalN.Unsigned.of_to b). now rewrite H.
+Qed.
+
+(* pigeonhole: n distinct strings that are all keys of a dictionary with fewer entries *)
+Lemma NoDup_map_seq (f : nat -> str) : forall n a,
+  (forall i j, a <= i < a + n -> a <= j < a + n -> f i = f j -> i = j) -> NoDup (map f (seq a n)).
+Proof.
+  induction n as [|n IH]; intros a H; cbn [seq map]; constructor.
+  - intros X. apply in_map_iff in X. destruct X as (j & E & Hj). apply in_seq in Hj.
+    assert (j = a) by (apply H; auto; lia). lia.
+  - apply IH. intros i j Hi Hj. apply H; lia.
+Qed.
+
+Lemma pigeon {V} (d : dict V) (f : nat -> str) n :
+  (forall i j, i < n -> j < n -> f i = f j -> i = j) ->
+  (forall i, i < n -> dmem d (f i) = true) -> n <= length d.
+Proof.
+  intros Hinj Hin.
+  assert (N : NoDup (map f (seq 0 n))) by (apply NoDup_map_seq; intros; apply Hinj; auto; lia).
+  assert (I : incl (map f (seq 0 n)) (map fst d)).
+  { intros x X. apply in_map_iff in X. destruct X as (i & <- & Hi). apply in_seq in Hi.
+    specialize (Hin i ltac:(lia)). unfold dmem in Hin. destruct (dget d (f i)) eqn:E; [|discriminate].
+    apply dget_In in E. now apply (in_map fst) in E. }
+  pose proof (NoDup_incl_length N I) as L. now rewrite !map_length, seq_length in L.
+Qed.
+
+Lemma numbered_inj base num i j : base ++ dec (num + N.of_nat i) = base ++ dec (num + N.of_nat j) -> i = j.
+Proof. intros H. apply app_inv_head in H. apply dec_inj in H. lia. Qed.
+
+(* the "while 1" of compute_qname ends within |bindings|+1 rounds *)
+Lemma find_ns_all s : forall fuel num, find_ns s fuel num = None ->
+  forall i, i < fuel -> dmem (p2n s) (s_ns ++ dec (num + N.of_nat i)) = true.
+Proof.
+  induction fuel as [|f IH]; intros num H i Hi; [lia|]. cbn [find_ns] in H.
+  destruct (dget (p2n s) (s_ns ++ dec num)) as [tn|] eqn:E; [|discriminate].
+  destruct (truthy tn); [|discriminate].
+  destruct i as [|i].
+  - replace (num + N.of_nat 0)%N with num by lia. unfold dmem. now rewrite E.
+  - replace (num + N.of_nat (S i))%N with (N.succ num + N.of_nat i)%N by lia. apply IH; auto. lia.
+Qed.
+
+Lemma find_ns_some s num : find_ns s (S (length (p2n s))) num <> None.
+Proof.
+  intros H. pose proof (find_ns_all s _ _ H) as A.
+  pose proof (pigeon (p2n s) (fun i => s_ns ++ dec (num + N.of_nat i)) (S (length (p2n s)))
+                (fun i j _ _ => numbered_inj s_ns num i j) A). lia.
+Qed.
+
+(* ... and so does the "while 1" of NamespaceManager.bind *)
+Lemma find_num_all s base ns : forall fuel num, find_num s base ns fuel num = NLoop ->
+  forall i, i < fuel -> dmem (p2n s) (base ++ dec (num + N.of_nat i)) = true.
+Proof.
+  induction fuel as [|f IH]; intros num H i Hi; [lia|]. cbn [find_num] in H.
+  destruct (dget (p2n s) (base ++ dec num)) as [tn|] eqn:E; [|discriminate].
+  destruct (truthy tn && str_eqb ns tn); [discriminate|].
+  destruct (negb (truthy tn)); [discriminate|].
+  destruct i as [|i].
+  - replace (num + N.of_nat 0)%N with num by lia. unfold dmem. now rewrite E.
+  - replace (num + N.of_nat (S i))%N with (N.succ num + N.of_nat i)%N by lia. apply IH; auto. lia.
+Qed.
+
+Lemma find_num_noloop s base ns num : find_num s base ns (S (length (p2n s))) num <> NLoop.
+Proof.
+  intros H. pose proof (find_num_all s base ns _ _ H) as A.
+  pose proof (pigeon (p2n s) (fun i => base ++ dec (num + N.of_nat i)) (S (length (p2n s)))
+                (fun i j _ _ => numbered_inj base num i j) A). lia.
 Qed.
 
 Lemma find_ns_free s : forall fuel num p,
@@ -126,9 +198,10 @@ Section Mgr.
     destruct (match dget (p2n s) (odefault prefix []) with Some b => truthy b && negb (str_eqb b ns) | None => false end).
     - destruct rep.
       + destruct (G (odefault prefix [])). now apply F.
-      + destruct (find_num s _ ns _ 1) as [|np].
+      + destruct (find_num s _ ns _ 1) as [|np|] eqn:En.
         * split; [exact Hg|now left].
         * destruct (G np). now apply F.
+        * now destruct (find_num_noloop _ _ _ _ En).
     - destruct (dget (n2p s) ns) as [bp|].
       + destruct (str_eqb bp (odefault prefix [])).
         * now apply F.
@@ -440,14 +513,125 @@ Section Mgr.
       rewrite (bij_ok_of_bij s (proj1 Hg)). reflexivity.
   Qed.
 
+  (* ---------------------------------------------------------------- *)
+  (* when the model raises, and what *)
+  Lemma sp_exists_whole s u :
+    sp_exists split (n2p s) u = match split_or_whole split s u with Some _ => true | None => false end.
+  Proof.
+    unfold sp_exists, split_or_whole. destruct (split u); [reflexivity|].
+    destruct (dget (n2p s) u) as [p|]; [|reflexivity]. now destruct (truthy p).
+  Qed.
+
+  Lemma m_generate_exn s ns gen e :
+    good s -> dget (n2p s) ns = None -> snd (m_generate s ns gen) = inr e ->
+    gen = false /\ e = EKey /\ fst (m_generate s ns gen) = s.
+  Proof.
+    intros Hg Hn. unfold m_generate. destruct gen; cbn [negb].
+    - destruct (find_ns s (S (length (p2n s))) 1) as [p|] eqn:E; [|now destruct (find_ns_some _ _ E)].
+      destruct (find_ns_free _ _ _ _ E) as [Hsp Hp].
+      destruct (m_bind_generated s p ns Hg Hsp Hn Hp) as (_ & H2 & _). rewrite H2. discriminate.
+    - cbn [fst snd]. intros X; inversion X. auto.
+  Qed.
+
+  Lemma m_prefix_for_exn s ns gen e :
+    good s -> snd (m_prefix_for s ns gen) = inr e ->
+    gen = false /\ e = EKey /\ fst (m_prefix_for s ns gen) = s.
+  Proof.
+    intros Hg. unfold m_prefix_for. destruct (dget (n2p s) ns) eqn:E; [discriminate|].
+    now apply m_generate_exn.
+  Qed.
+
+  Lemma maps_insert_strie s v : p2n (m_insert_strie s v) = p2n s /\ n2p (m_insert_strie s v) = n2p s.
+  Proof. unfold m_insert_strie. destruct (memb str_eqb v (strie s)); auto. Qed.
+
+  Lemma m_compute_exn s u gen e :
+    good s -> snd (m_compute split s u gen) = inr e ->
+    p2n (fst (m_compute split s u gen)) = p2n s /\ n2p (fst (m_compute split s u gen)) = n2p s /\
+    compute_exn_ok split (n2p s) u gen e = true.
+  Proof.
+    intros Hg. unfold m_compute, compute_exn_ok. rewrite sp_exists_whole.
+    destruct (dget (cache s) u); [discriminate|].
+    destruct (valid_uri u) eqn:Ev; cbn [negb];
+      [|cbn [fst snd]; intros X; inversion X; auto].
+    destruct (split_or_whole split s u) as [[ns0 nm0]|] eqn:Es;
+      [|cbn [fst snd]; intros X; inversion X; auto].
+    set (s1 := m_insert_strie s ns0).
+    assert (Hg1 : good s1) by now apply good_insert_strie.
+    destruct (maps_insert_strie s ns0) as [M1 M2].
+    pose proof (m_prefix_for_exn s1 (fst (pick_ns s1 ns0 nm0 u)) gen) as P.
+    destruct (m_prefix_for s1 (fst (pick_ns s1 ns0 nm0 u)) gen) as [s2 [p|e']]; cbn [fst snd] in *;
+      [discriminate|].
+    intros X; inversion X; subst e'. destruct (P e Hg1 eq_refl) as (-> & -> & ->).
+    unfold s1. rewrite M1, M2. auto.
+  Qed.
+
+  Definition strict_exn_ok (r : list (str * str)) (u : str) (g : bool) (e : exn) : bool :=
+    compute_exn_ok split r u g e || (exn_eqb e EValue && is_none (split_s u)) || (exn_eqb e EKey && negb g).
+
+  Lemma m_compute_strict_exn s u gen e :
+    good s -> snd (m_compute_strict split split_s ncname s u gen) = inr e ->
+    strict_exn_ok (n2p (fst (m_compute_strict split split_s ncname s u gen))) u gen e = true.
+  Proof.
+    intros Hg. unfold m_compute_strict, strict_exn_ok.
+    pose proof (m_compute_exn s u gen) as C. destruct (m_compute_good s u gen Hg) as (G1 & _).
+    destruct (m_compute split s u gen) as [s1 [q|e1]]; cbn [fst snd] in *.
+    - destruct (ncname (snd q)); [discriminate|].
+      destruct (dget (cache_s s1) u); [discriminate|].
+      destruct (split_s u) as [[ns' nm']|] eqn:Es.
+      + assert (Hg2 : good (m_insert_strie s1 ns')) by now apply good_insert_strie.
+        pose proof (m_prefix_for_exn (m_insert_strie s1 ns') ns' gen) as P.
+        destruct (m_prefix_for (m_insert_strie s1 ns') ns' gen) as [s3 [p|e']]; cbn [fst snd] in *;
+          [discriminate|].
+        intros X; inversion X; subst e'. destruct (P e Hg2 eq_refl) as (-> & -> & _).
+        cbn. now rewrite !orb_true_r.
+      + cbn [fst snd]. intros X; inversion X. cbn. now rewrite orb_true_r.
+    - intros X; inversion X; subst e1. destruct (C e Hg eq_refl) as (_ & -> & ->). reflexivity.
+  Qed.
+
+  Lemma m_step_exn s o :
+    good s ->
+    let r := m_step split split_s ncname s o in
+    exn_ok split split_s (p2n (fst r)) (n2p (fst r)) o (snd r) = true.
+  Proof.
+    intros Hg. destruct o; cbn [m_step].
+    - destruct (m_bind s p n ov rep) as [s' [e|]]; reflexivity.
+    - pose proof (m_compute_exn s u true) as C.
+      destruct (m_compute split s u true) as [s' [q|e]]; cbn [fst snd exn_ok] in *; [reflexivity|].
+      destruct (C e Hg eq_refl) as (_ & -> & H). exact H.
+    - pose proof (m_compute_exn s u gen) as C.
+      destruct (m_compute split s u gen) as [s' [q|e]]; cbn [fst snd exn_ok] in *; [reflexivity|].
+      destruct (C e Hg eq_refl) as (_ & -> & H). exact H.
+    - pose proof (m_compute_exn s u gen) as C.
+      destruct (m_compute split s u gen) as [s' [q|e]]; cbn [fst snd exn_ok] in *; [reflexivity|].
+      destruct (C e Hg eq_refl) as (_ & -> & H). exact H.
+    - pose proof (m_compute_strict_exn s u gen) as C.
+      destruct (m_compute_strict split split_s ncname s u gen) as [s' [q|e]]; cbn [fst snd exn_ok] in *;
+        [reflexivity|]. exact (C e Hg eq_refl).
+    - unfold m_normalize. destruct (split u) as [[ns nm]|] eqn:Es; [|reflexivity].
+      destruct (dget (n2p (m_insert_strie s ns)) ns); [|reflexivity].
+      assert (Hg1 : good (m_insert_strie s ns)) by now apply good_insert_strie.
+      pose proof (m_compute_exn (m_insert_strie s ns) u true) as C.
+      destruct (m_compute split (m_insert_strie s ns) u true) as [s' [q|e]]; cbn [fst snd exn_ok] in *;
+        [reflexivity|].
+      destruct (C e Hg1 eq_refl) as (_ & _ & H). unfold compute_exn_ok in H.
+      destruct e; cbn in H |- *; try discriminate.
+      unfold sp_exists in H. rewrite Es in H. cbn in H. now rewrite orb_false_r in H.
+    - cbn [fst snd]. unfold m_expand, exn_ok. destruct (split_colon c) as [[pre rest]|]; [|reflexivity].
+      destruct (dget (p2n s) pre); reflexivity.
+    - reflexivity.
+    - reflexivity.
+  Qed.
+
   Lemma m_run_ok ops : SB = true -> forall s,
     good s -> (forall o, In o ops -> op_exact o) ->
-    all_ok ops (m_run split split_s ncname s ops) = true.
+    all_ok split split_s ops (m_run split split_s ncname s ops) = true.
   Proof.
     intros HB. induction ops as [|o r IH]; intros s Hg Hx; cbn [m_run m_final all_ok] in *; auto.
     destruct (m_step_good s o Hg) as [G S]. specialize (S (or_introl HB)).
+    pose proof (m_step_exn s o Hg) as X.
     destruct (m_step split split_s ncname s o) as [s' x]. cbn [fst snd] in *.
-    cbn [all_ok]. rewrite (S (Hx o (or_introl eq_refl))). cbn [andb].
+    cbn [all_ok]. unfold snap_ok2. rewrite (S (Hx o (or_introl eq_refl))).
+    unfold snap_of. cbn [s_list s_rev s_res]. rewrite X. cbn [andb].
     apply IH; auto. intros o' Ho. apply Hx. now right.
   Qed.
 
